@@ -42,6 +42,13 @@ class Prop(common.PropertyCheck):
                    'gain': [rng.choice([None, '2', '0.5']) for _ in range(D)], 'm': [rng.uniform(0.85, 1.25) for _ in range(D)], 'b': [rng.uniform(0, 7) for _ in range(D)],
                    'rfi_ch': ['one', 'subset', 'subset'][i % 3], 'mef_ch': 'subset', 'override': False, 'sc_all': False, 'seed': rng.randrange(1 << 30),
                    'sc_kind': 'lambda', 'nozero': False, 'nolimit': [], 'negpos': True}
+        # a single channel given as a scalar: position 0 (a falsy value), another position, a name
+        for i in range(self.budget(18, 150)):
+            D = rng.randrange(2, 5)
+            yield {'D': D, 'res': [rng.choice([256, 1024, 4096]) for _ in range(D)], 'pne': [rng.choice(['4,1', '3,1', '0,0', '2,0.5']) for _ in range(D)],
+                   'gain': [rng.choice([None, '2', '0.5']) for _ in range(D)], 'm': [rng.uniform(0.85, 1.25) for _ in range(D)], 'b': [rng.uniform(0, 7) for _ in range(D)],
+                   'rfi_ch': 'one', 'mef_ch': 'one', 'override': False, 'sc_all': False, 'seed': rng.randrange(1 << 30),
+                   'sc_kind': 'lambda', 'nozero': False, 'nolimit': [], 'scalar_ch': ['zero', 'pos', 'name'][i % 3]}
         # a channel listed twice in one conversion request (converted twice: events and limits alike)
         for i in range(self.budget(16, 150)):
             D = rng.randrange(2, 5)
@@ -132,11 +139,15 @@ class Prop(common.PropertyCheck):
         def cols_of(ch):
             if ch is None:
                 return list(range(D))
+            if not isinstance(ch, (list, tuple)):
+                ch = [ch]
             return [names.index(c) if isinstance(c, str) else c % D for c in ch]
 
         try:
             # --- to_rfi
             ch1 = pick(case['rfi_ch'], neg=bool(case.get('negpos')))
+            if case.get('scalar_ch'):
+                ch1 = 0 if case['scalar_ch'] == 'zero' else (D - 1 if case['scalar_ch'] == 'pos' else names[r.randrange(D)])
             if case.get('listed_twice') and ch1:
                 ch1 = ch1 + [ch1[0] if isinstance(ch1[0], int) else names.index(ch1[0])]       # the first channel once more, by position
             kw = {}
